@@ -357,10 +357,14 @@ func runRouting(c *Ctx, prop string) {
 			{method: 2, primary: rbind{kind: "GET", t: ttmpl{segs: []tseg{v("name", tseg{kind: sStarStar})}}}}},
 		{{method: 0, primary: rbind{kind: "GET", t: ttmpl{segs: []tseg{v("name", lit("a"), tseg{kind: sStar}, lit("b"), tseg{kind: sStar}, lit("c"))}}}},
 			{method: 1, primary: rbind{kind: "GET", t: ttmpl{segs: []tseg{v("name", lit("a"), tseg{kind: sStar}, lit("b"))}}}}},
+		// an int64-typed variable against text that only LOOKS numeric in another radix
+		{{method: 0, primary: rbind{kind: "GET", t: ttmpl{segs: []tseg{lit("n"), v("i64")}}}},
+			{method: 1, primary: rbind{kind: "GET", t: ttmpl{segs: []tseg{lit("s"), v("s64")}}}}},
 	}
 	directedPaths := map[int][]string{
 		3: {"/v1/shelves/zz", "/v1/shelves/s1", "/v1/shelves/s1/books", "/v1/shelves", "/v1/shelves/s1/books/b1"},
 		4: {"/a/x/b", "/a/x", "/a/x/b/y", "/a/x/b/y/c", "/a"},
+		5: {"/n/0x10", "/n/010", "/n/0b11", "/n/1_0", "/n/10", "/n/-0x1", "/s/0x7f", "/s/0o17", "/s/-9223372036854775808", "/n/9223372036854775808"},
 	}
 	for si := 0; si < nSets+len(directedSets); si++ {
 		var rules []rrule
